@@ -39,6 +39,9 @@ CHECKS = {
     "C09": ("proof",
             "Lean theorems C09_*: the scan behind find_end_subtree consumes exactly one subtree per open slot; flat lists of rose trees are exactly the well-formed lists (parser, injectivity, contexts); subtree/concat/get_args_id/get_levels/get_max_level equal their recursive definitions; concat∘subtree = id; stack evaluation and printing equal the recursive meaning; batch = pointwise; set_terminals rebinding; structural equality; the coded two-tree and k-tree common-region loops equal the recursive definition. Tied by exhaustive correspondence over all tree shapes up to a size bound and every node index, an independent recursive reference, and the function table against math.",
             "§6 C09", "Lean 4 proof + exhaustive small correspondence; numeric function table by reference (exploration)", "the named numeric functions are floats: compared against Python's math, not proved"),
+    "C04": ("proof",
+            "Lean theorems C04_* on the stream model: a seeded run is independent of the prior states of both numba generator streams (the first action overwrites both and nothing else is read); an integer seed and a RandomState object in the same state give the same key; determinism of the body; the unseeded counterexample; plus the REGENERATED obligation C04_rng_sites — every random-number call site of the current source is inside an @njit function (seeded numba stream) or whitelisted — re-proved by decide on every run. Run equality itself is observed: each optimizer and estimator twice with identical arguments and seed under perturbation of all four generators with another optimizer run in between, bit-identical per generation.",
+            "§6 C04", "Lean 4 proof of the seeding discipline + regenerated call-site obligation; run equality by differential double runs (partial)", "equality of two executions of JIT-compiled numeric code is observed, not proved; the generators are parameters; n_jobs>1 with stochastic genotype_to_phenotype is outside the quantifier"),
     "C10": ("proof",
             "Lean theorems C10_* (bit/Gray round trips for all widths, one-bit adjacency of successive Gray codes, grid formula, endpoints, box, injectivity, encode∘decode = id, decode∘encode nearest grid point, fixed output length, bits-from-step) over exact rationals; tied to SamplingGrid/GrayCode by exhaustive correspondence over all bit strings of small widths and all small bits-per-variable vectors.",
             "§6 C10", "Lean 4 proof + exact model/implementation correspondence (exhaustive small widths)", "np.rint ties and float rounding of left+h*k observed at 1e-9, not proved"),
@@ -57,6 +60,9 @@ CHECKS = {
     "C16": ("proof",
             "Lean theorems C16_* (any strictly increasing cut points partition; truncated perturbed linspace points are strictly increasing from 0 to pop; n_jobs normalisation lands in [1,pop], 0 rejected; chunked row-wise evaluation reassembled by chunk index equals whole evaluation for every arrival order); tied to _get_n_jobs/_split_population by exact correspondence over ALL (pop_size, n_jobs) pairs up to a bound and by runs with n_jobs>1 under forced worker reorderings.",
             "§6 C16", "Lean 4 proof of the partition logic + exhaustive correspondence + differential runs (schedules partial)", "joblib returning results in submission order is modelled and observed under forced completion reorderings, not proved"),
+    "C18": ("proof",
+            "Lean theorems C18_*: label coding is a bijection between seen labels and codes (sorted distinct classes; decode∘encode = id and back), arg-max returns the first maximal valid column, predict returns the original class label of the arg-max column, the sigmoid pair lies on the simplex, reserved optimizer arguments are rejected and all others accepted, bias column, budget; predict = evaluate∘rebind and forward = node equations are C09/C12, the evaluation count is C03. The glue is observed: all six estimators (harness-side stand-in for the removed scikit-learn validation method), every weight/structure optimizer and several functional sets, string and non-contiguous integer labels: predict vs independent evaluation of tree_/net_, training error vs reported best fitness, predict_proba rows, purity of predict, wrong feature count, same seed same model, inputs/params unchanged, reserved arguments.",
+            "§6 C18", "Lean 4 proof of the logical core + exploration of the library glue (partial)", "scikit-learn validators/encoders and the float pipeline are trusted/observed"),
     "C19": ("proof",
             "Lean theorems C19_* (the coded accumulation loops compute the textbook TP/FN/FP counts; recall, precision, F1, accuracy, confusion matrix equal their definitions for every admissible label vector; r2/mse facts; batch = rows); tied to the numba kernels by exact-rational correspondence exhaustive over all admissible label-vector pairs of small length, plus an independent reference (scikit-learn / formulas).",
             "§6 C19", "Lean 4 proof + exhaustive small correspondence + independent reference", "sqrt/log are not modelled in Rat: rmse via its square, cross-entropy compared to a float reference (target-clipping gap reported)"),
